@@ -503,7 +503,9 @@ Section Markdown.
     | EStart t => Ok ([], t :: stack)
     | EEndBreaking => Ok ([mktok (span_new_with_len tc 0) K_PARBREAK], tl stack)
     | EEndOther => Ok ([], tl stack)
-    | ECodeLike n => Ok ([mktok (span_new_with_len tc n) K_UNLINTABLE], stack)
+    | ECodeLike n =>
+        if n =? 0 then Ok ([], stack)                                (* `if chunk_len == 0 { continue; }` (a37d1cc) *)
+        else Ok ([mktok (span_new_with_len tc n) K_UNLINTABLE], stack)
     | EHtml n => Ok ([mktok (span_new_with_len tc n) K_UNLINTABLE], stack)
     | EText n re =>
         do chunk_len <- md_chunk_len bs rs re n;
@@ -516,16 +518,33 @@ Section Markdown.
   Definition md_advance (bs : list N) (tb tc rs : nat) : res (nat * nat) :=
     if tb <? rs then do s <- str_slice bs tb rs; Ok (rs, tc + count_chars s) else Ok (tb, tc).
 
-  (* events carry the byte start of their source range *)
+  (* the guard of 8b26ba4: the events that make a token covering characters *)
+  Definition md_is_leaf (ev : md_event) : bool :=
+    match ev with
+    | ESoftBreak | EHardBreak | ECodeLike _ | EText _ _ | EHtml _ => true
+    | _ => false
+    end.
+  (* if let Some(last) = tokens.last() { covered_until = covered_until.max(last.span.end); } *)
+  Definition md_cu_top (cu : nat) (lastend : option nat) : nat :=
+    match lastend with Some x => Nat.max cu x | None => cu end.
+  (* tokens.last().map(|t| t.span.end) after `out` has been appended *)
+  Definition md_last_end (out : list tok) (lastend : option nat) : option nat :=
+    match rev out with t :: _ => Some (send (tspan t)) | [] => lastend end.
+
+  (* events carry the byte start of their source range; cu = covered_until, lastend = the end of tokens.last() *)
   Fixpoint md_loop (src : text) (bs : list N) (evs : list (md_event * nat))
-           (tb tc : nat) (stack : list md_tag) : res (list tok) :=
+           (tb tc cu : nat) (lastend : option nat) (stack : list md_tag) : res (list tok) :=
     match evs with
     | [] => Ok []
     | (ev, rs) :: rest =>
         do '(tb, tc) <- md_advance bs tb tc rs;
-        do '(out, stack) <- md_event_step src bs rs stack tc ev;
-        do r <- md_loop src bs rest tb tc stack;
-        Ok (out ++ r)
+        let cu := md_cu_top cu lastend in
+        if md_is_leaf ev && (tc <? cu) then                          (* `continue` of the guard *)
+          md_loop src bs rest tb tc cu lastend stack
+        else
+          do '(out, stack) <- md_event_step src bs rs stack tc ev;
+          do r <- md_loop src bs rest tb tc cu (md_last_end out lastend) stack;
+          Ok (out ++ r)
     end.
 
   (* the cursor values seen by each event (specification side) *)
@@ -551,7 +570,7 @@ Section Markdown.
     | [] => toks
     end.
   Definition md_parse_core (src : text) (evs : list (md_event * nat)) : res (list tok) :=
-    do toks <- md_loop src (encode src) evs 0 0 [];
+    do toks <- md_loop src (encode src) evs 0 0 0 None [];
     Ok (md_pop_last src toks).
 End Markdown.
 
